@@ -308,13 +308,21 @@ def run_native(ctx, tier: str) -> None:
                     ctx.count("native:skipped:" + k[5:], v)
             if rc == 0:
                 break
+            if rc == -999:
+                # the wall-clock guard fired (overloaded machine): inconclusive, never a violation
+                ctx.notes["native_round_timeout"] += 1
+                break
             cls = classify(err)
             crash_files = sorted(art.glob("*"))
             data = crash_files[0].read_bytes() if crash_files else b""
+            if data and (cls is None or cls[0].endswith(":unknown")):
+                # truncated report: classify from a re-run of the saved input alone
+                _rc2, err2 = run_once(exe, [str(crash_files[0])], skip, None, timeout=900)
+                cls = classify(err2) or cls
+            if cls is not None and cls[0].endswith(":unknown") and not data:
+                ctx.notes["native_unclassifiable_report"] += 1
+                break
             if cls is None:
-                if rc == -999:
-                    ctx.notes["native_round_timeout"] += 1
-                    break
                 raise FuzzBuildError(f"fuzz target exited {rc} without a recognisable report:\n"
                                      + err[-3000:])
             bucket, msg = cls
